@@ -2170,7 +2170,7 @@ fn main() {
 			}
 		}
 	}
-	let total: u64 = ctx.tier.pick(16_000, 320_000);
+	let total: u64 = ctx.tier.pick(16_000, 2_560_000);
 	let shards = 16u64;
 	let results = run_parallel((0..shards).collect(), |_, s| run_shard(ctx.seed, s, total / shards));
 	let mut harness_errors = slow_errors;
